@@ -271,10 +271,24 @@ def parse_nest(segs):
 
 
 def py_int(s):
-    """int() as _int sees it, stated independently of the Lean text: None for 'not a number' (or absent)"""
+    """int() as _int sees it, stated independently of the Lean text: None for 'not a number' (or absent).
+    From U+007F up a white-space character counts as a blank and a decimal digit (any script) as its value; anything
+    else there is fatal.  Below U+007F only the six C white-space characters are skipped (so not U+001C..U+001F)."""
     if s is None:
         return None
-    t = s.strip(' \t\n\r\x0b\x0c')
+    import unicodedata
+    chars = []
+    for ch in s:
+        if ord(ch) < 127:
+            chars.append(ch)
+        elif ch.isspace():
+            chars.append(' ')
+        else:
+            d = unicodedata.decimal(ch, None)
+            if d is None:
+                return None
+            chars.append('0123456789'[d])
+    t = ''.join(chars).strip(' \t\n\r\x0b\x0c')
     if t[:1] in ('+', '-'):
         sign, t = (-1 if t[0] == '-' else 1), t[1:]
     else:
@@ -467,8 +481,14 @@ def count_form(rnd, n, tags):
         forms += [s[0] + '_' + s[1:], s[:-1] + '_' + s[-1]]
     if n == 0:
         forms += ['-0', '0_0']
+    # int() beyond ASCII: decimal digits of other scripts, white space from U+0085 up
+    zero = rnd.choice(UNI_ZEROS)
+    uni = ''.join(chr(zero + int(c)) for c in '%d' % n)
+    forms += [uni, uni, '%d' % n + rnd.choice(UNI_SPACES), rnd.choice(UNI_SPACES) + '%d' % n, '+' + uni + rnd.choice(UNI_SPACES),
+              '0' + uni, uni[:1] + ('%d' % n)[1:], '\u2028%d\u00a0' % n]
     wrong = ['%d' % (n + 1), '%d' % max(0, n - 1), '-%d' % (n + 1), 'X', '', None, '1_', '_1', '1__0', '+ 1', '1 1', '%d.0' % n,
-             '%dX' % n, '--1', '+', '\x1c%d' % n, '%d_' % n, '9' * (MAXDIG + 1), '0' * MAXDIG + '%d' % n, '1e1', '0x1']
+             '%dX' % n, '--1', '+', '\x1c%d' % n, '%d_' % n, '9' * (MAXDIG + 1), '0' * MAXDIG + '%d' % n, '1e1', '0x1',
+             '%d\x1f' % n, '%d\u200b' % n, '\u00b2', '%d\u00e9' % n, '\u2028', uni + '\u0661', '\u2160', '%d\x7f' % n, '+\u2028' + uni]
     if rnd.random() < 0.55:
         return rnd.choice(forms)
     w = rnd.choice(wrong)
@@ -862,6 +882,27 @@ def work(args):
     return agg
 
 
+def unicode_tables():
+    """(white-space code points, {code point: decimal value}) of the Python that runs the check, over all scalar values"""
+    import unicodedata
+    spaces, decs = [], {}
+    for c in range(0x110000):
+        if 0xD800 <= c <= 0xDFFF:
+            continue
+        ch = chr(c)
+        if ch.isspace():
+            spaces.append(c)
+        d = unicodedata.decimal(ch, None)
+        if d is not None:
+            decs[c] = d
+    return spaces, decs
+
+
+# the zeros of some Nd runs and some white space from U+0085 up, for the sequence generator (the int() stage below covers all)
+UNI_ZEROS = (0x660, 0x6F0, 0x966, 0xFF10, 0x1D7CE, 0x1E950, 0x30)
+UNI_SPACES = ('\u2028', '\u00a0', '\u0085', '\u3000', '\u1680', '\u2003', '\u202f', '\u205f', '\u2029')
+
+
 def int_cases(tier):
     """texts for the int() correspondence: every string over a small alphabet up to a length bound, the digit-count
     limit, and every ASCII character as prefix / suffix / infix of a digit"""
@@ -883,9 +924,56 @@ def int_cases(tier):
         yield '1' * k + '_'
 
 
+def unicode_int_cases(tier, spaces, decs):
+    """the Unicode part: EVERY scalar value alone and on both sides of a digit (the two tables of the model, exhaustively);
+    every white-space / decimal code point between all pairs of ASCII neighbours; pairs of such code points; the
+    digit-count limit in another script; random mixed strings"""
+    import itertools
+    for c in range(0x110000):
+        if 0xD800 <= c <= 0xDFFF:
+            continue
+        ch = chr(c)
+        yield ch
+        yield ch + '1' + ch
+    special = sorted(set(spaces) | set(decs))
+    side = ['', '1', '0', '9', '+', '-', '_', ' ', '\t', '\x1c', 'X', '7_']
+    for c in special:
+        ch = chr(c)
+        for a, b in itertools.product(side, repeat=2):
+            yield a + ch + b
+        for t in ('-' + ch + ch, ch + '_' + ch, ch + '__' + ch, '+' + ch + ' ' + ch, ' ' + ch + '1' + ch + ' ', '1' + ch + '2' + ch + '3'):
+            yield t
+    rnd = random.Random(common.seed() * 7919 + 404)
+    other = ['\u00e9', '\u200b', '\u00b2', '\u2160', '\ufeff', '\x7f', '\x80', '\U0010ffff', '\u0f33', '\u3007', '\u4e00', '\u00bd']
+    npairs = len(special) ** 2 if tier == 'thorough' else 60000
+    if tier == 'thorough':
+        for a, b in itertools.product(special, repeat=2):
+            yield chr(a) + chr(b)
+    else:
+        for _ in range(npairs):
+            yield chr(rnd.choice(special)) + chr(rnd.choice(special))
+    pool = [[chr(c) for c in spaces], [chr(c) for c in decs], ['0', '1', '5', '9'], ['+', '-', '_'], [' ', '\t', '\n', '\x0b', '\x1c', '\x1f'],
+            other, ['X', '.', 'e']]
+    weights = [4, 8, 5, 2, 2, 1, 1]
+    for _ in range(600000 if tier == 'thorough' else 120000):
+        k = rnd.choice((1, 2, 2, 3, 3, 4, 5, 6, 8, 12))
+        yield ''.join(rnd.choice(rnd.choices(pool, weights)[0]) for _ in range(k))
+    for zero in (0x661 - 1, 0xFF10, 0x1D7CE):
+        for k in (MAXDIG - 1, MAXDIG, MAXDIG + 1):
+            yield chr(zero + 1) * k
+            yield '\u2028-' + chr(zero + 7) * (k - 1) + '7\u00a0'
+            yield '_'.join(chr(zero + 3) * k)
+
+
 def int_stage(res, tier, built):
     """Lean pyInt and the oracle's py_int against CPython int(), which is all X12Base._int adds a try/except to"""
-    cases = list(int_cases(tier))
+    spaces, decs = unicode_tables()
+    zeros = sorted(c for c, d in decs.items() if d == 0)
+    runs_ok = len(decs) == 10 * len(zeros) and all(decs.get(z + i) == i for z in zeros for i in range(10))
+    if not runs_ok:
+        res.broke('correspondence:Envelope.pyDigitZeros', 'the decimal digits of this Python do not come in runs of ten')
+    ascii_cases = list(int_cases(tier))
+    cases = ascii_cases + list(unicode_int_cases(tier, spaces, decs))
     model = common.run_model([common.line('ENVINT', t) for t in cases]) if built else None
     bad_model = bad_oracle = 0
     for i, t in enumerate(cases):
@@ -903,7 +991,10 @@ def int_stage(res, tier, built):
             if bad_model <= 3:
                 res.broke('correspondence:Envelope.pyInt', 'text %r (len %d): int() gives %s, model %s' %
                           (t[:40], len(t), 'none' if v is None else str(v)[:40], model[i][:40]))
-    res.notes['int_correspondence'] = {'texts': len(cases), 'model_disagreements': bad_model, 'oracle_disagreements': bad_oracle}
+    res.notes['int_correspondence'] = {'texts': len(cases), 'ascii_texts': len(ascii_cases), 'unicode_texts': len(cases) - len(ascii_cases),
+                                       'scalar_values_covered': 0x110000 - 0x800, 'isspace_code_points': len(spaces),
+                                       'decimal_code_points': len(decs), 'decimal_runs': len(zeros),
+                                       'model_disagreements': bad_model, 'oracle_disagreements': bad_oracle}
 
 
 def merge(total, a):
@@ -961,7 +1052,7 @@ def run(tier):
     res.notes['crashes_predicted_by_unfixed_model'] = {'same_place_and_class': total['unfixed_model_agrees'], 'different': total['unfixed_model_differs']}
     res.notes['exhaustive'] = False
     res.assumptions = ['segments are well formed (valid identifier, non-empty, no leading blank / trailing separator are the tokeniser\'s '
-                       'business, C01); element values are ASCII',
+                       'business, C01); count / number elements are arbitrary Unicode text, other element values ASCII',
                        'the first ISA is the fixed-width header the raw reader needs; later ISA segments are arbitrary',
                        'LX clause: stated for sets in which every LX follows a CLM of the same set (DESIGN C04 refinement i)',
                        'HL clause: the Lean recount states the reader\'s rule (blank parent = child of the previous HL); the Python oracle '
